@@ -149,8 +149,9 @@ func (u *executeUnit) run(r euReq) euResp {
 			u.bu.notifyUnconditionalJumpAddressResolved(u.runner.Pc, execution.NextPc)
 		}
 		if u.runner.Runner.InstructionType().IsConditionalBranch() {
-			if execution.PcChange {
-				// Branch taken (jump)
+			if execution.PcChange && execution.NextPc != u.runner.Pc+4 {
+				// Branch taken (jump); a jump to the next instruction leaves the
+				// speculated path valid, there is nothing to roll back
 				u.bu.notifyConditionalBranchTaken(u.runner.SequenceID)
 			} else {
 				// Branch not taken (next PC)
